@@ -41,8 +41,10 @@ def run(ctx):
         idents += [n, n.lower(), n.upper(), n.capitalize()]
     base_sample = tab_names if not quick else r.sample(tab_names, 70) + ["meter", "gram", "byte", "B", "inch", "hour", "m", "g", "s", "K", "zib", "smoot", "mile", "florp", "hugo", "byteish", "USD"]
     for p in long_prefixes + short_prefixes + ["hugo", "Kilo", "MEGA", "ki"]:
-        for n in (base_sample if (not quick or True) else base_sample):
-            idents.append(p + n)
+        for n in base_sample:
+            # only names that continue an identifier: `quetta%`, `kilo’` are two tokens for the lexer, not one prefixed name
+            if n[0].isalpha():
+                idents.append(p + n)
     idents += ["kilozib", "kilozibs", "ksmoot", "kilomile", "kilomiles", "hugometer", "florp", "florps", "Florp", "kiloflorp", "byteish", "quarterhour", "quartermeters", "QuarterHour", "EiB", "C", "F", "c", "f"]
     idents = list(dict.fromkeys(i for i in idents if i and not any(ch in i for ch in " \t\n'\"#@;()") and not i[0].isdigit()))
     cases = []
@@ -59,7 +61,8 @@ def run(ctx):
                "unitless", "null", "tau", "phi", "ans", "_", "cis", "differentiate", "dydx", "mixed", "earth", "char", "character", "codepoint", "string", "date", "avg", "average", "to", "as", "in", "of", "mod", "xor", "and", "or", "per", "nCr", "nPr", "choose", "permute", "rem", "equals", "combination", "permutation"}
     for (cf, cu, i), a, m in zip(cases, impl, model):
         kind = m.split(" ")[0]
-        if i in NONUNIT:
+        # an all-uppercase identifier that is no unit falls back to the lowercase built-in (`TAU` -> `tau`)
+        if i in NONUNIT or (i.lower() in NONUNIT and all(ch.isdigit() or ch.isupper() for ch in i)):
             dist["shadowed_by_nonunit"] += 1
             continue
         dist[kind] = dist.get(kind, 0) + 1
